@@ -474,6 +474,10 @@ def feaShift (t : Table) (id : Nat) : Nat :=
 def feaShiftElided (t : Table) (id : Nat) : Nat :=
   if maxId t ≤ 255 then id else id + (maxId t + 1 - 256)
 
+/-- fea-rs output.rs:127-151: `FeatureParams::Size` is not among the remapped parameters, so the `size` feature's
+    menu name id keeps its unshifted value (literal). -/
+def feaShiftSize (_t : Table) (id : Nat) : Nat := id
+
 /-! ## Names supplied through feature code: fea-rs `NameBuilder` (fea-rs/src/compile/tables/name.rs) -/
 
 /-- `NameSpec` (name.rs:17-23) -/
@@ -504,13 +508,23 @@ def FeaBuilder.addAnonGroup (b : FeaBuilder) (entries : List FeaSpec) : FeaBuild
   let id := b.nextId
   ((entries.filter fun e => !e.str.isEmpty).foldl (fun c e => c.add id e) b, id)
 
+/-- the anonymous groups, in build order; result: the builder and the id given to every group -/
+def FeaBuilder.addGroups (b : FeaBuilder) : List (List FeaSpec) → FeaBuilder × List Nat
+  | [] => (b, [])
+  | g :: gs =>
+    let r := b.addAnonGroup g
+    let rest := r.1.addGroups gs
+    (rest.1, r.2 :: rest.2)
+
+/-- the builder after the explicit `table name { nameid N …; }` records, in file order (compile_ctx.rs:1663-1669) -/
+def feaExplicit (expl : List (Nat × FeaSpec)) : FeaBuilder := expl.foldl (fun b p => b.add p.1 p.2) FeaBuilder.empty
+
 /-- compile_ctx.rs:1663-1669 (`table name` records in file order) then compile_ctx.rs:194-237 (anonymous groups in
     build order: STAT elided fallback name, per DesignAxis its name and its AxisValue names, format-4 values,
     `size` menu name, stylistic-set featureNames in tag order, cvParameters in tag order). Result: the builder and the id
     of every group. -/
 def feaCompile (expl : List (Nat × FeaSpec)) (groups : List (List FeaSpec)) : FeaBuilder × List Nat :=
-  groups.foldl (fun (acc : FeaBuilder × List Nat) g => ((acc.1.addAnonGroup g).1, acc.2 ++ [(acc.1.addAnonGroup g).2]))
-    (expl.foldl (fun b p => b.add p.1 p.2) FeaBuilder.empty, [])
+  (feaExplicit expl).addGroups groups
 
 /-- the FEA name records as they reach fontbe's merge: font-specific ids shifted above the compiler's own ids -/
 def feaRecordsShifted (own : Table) (b : FeaBuilder) : Table :=
